@@ -59,27 +59,37 @@ def mainCurvaturesAtDesignPoint( dim, g, dg, distObjs, corrMat,
     B, _ = gramSchmidOrth( A, alignVec=alignVec )
     H = np.array( B[ :, [ idx for idx in range( 1, dim )] + [ 0 ] ], dtype=float ).T
 
-    # Second differences need the square root of the first difference spacing, taken 
-    # relative to the scale of each variable; otherwise round-off dominates the Hessian
-    stdX = np.array( [ distObj.std() for distObj in distObjs ], dtype=float )
-    xDesign = np.array( xCoord, dtype=float )
-
-    def lsfAtScaledX( Y ):
-        return g( xDesign + np.array( Y, dtype=float ) * stdX )
-
-    hm = hessianMatrix( lsfAtScaledX, dim, dx=np.sqrt( dx ) )
-    lsfHmAtX = np.array( [ [ hmij( [ 0.0 ] * dim ) for hmij in hmi ] for hmi in hm ], 
-                         dtype=float ) / np.outer( stdX, stdX )
-    # Chain rule for the Hessian w.r.t. U: the marginal maps x_k = F_k^-1( Phi( z_k ) )
-    # with Z = L U are curved themselves, d2x_k / dz_k^2 = x_k' ( -z_k - ( ln f_k )' x_k' )
+    # The marginal maps x_k = F_k^-1( Phi( z_k ) ) with Z = L U: slope and curvature at the 
+    # design point, d2x_k / dz_k^2 = x_k' ( -z_k - ( ln f_k )' x_k' ).  Only pdf is needed.
     zCoord = np.dot( natafTrans.L, uCoord )
+    xDesign = np.array( xCoord, dtype=float )
+    dxdz = np.zeros( dim )
     d2xdz2 = np.zeros( dim )
     for k in range( dim ):
-        dxdz = stats.norm.pdf( zCoord[ k ] ) / distObjs[ k ].pdf( xCoord[ k ] )
-        h = 1e-5 * distObjs[ k ].std()
-        dlogpdf = ( distObjs[ k ].logpdf( xCoord[ k ] + h ) - 
-                    distObjs[ k ].logpdf( xCoord[ k ] - h ) ) / ( 2 * h )
-        d2xdz2[ k ] = dxdz * ( -zCoord[ k ] - dlogpdf * dxdz )
+        pdfAtX = distObjs[ k ].pdf( xDesign[ k ] )
+        dxdz[ k ] = stats.norm.pdf( zCoord[ k ] ) / pdfAtX
+        # ( ln f_k )' by a central difference that stays inside the support
+        h = 1e-5 * abs( dxdz[ k ] )
+        for _ in range( 60 ):
+            pdfRight = distObjs[ k ].pdf( xDesign[ k ] + h )
+            pdfLeft = distObjs[ k ].pdf( xDesign[ k ] - h )
+            if pdfRight > 0 and pdfLeft > 0:
+                break
+            h = h / 2
+        dlogpdf = ( np.log( pdfRight ) - np.log( pdfLeft ) ) / ( 2 * h )
+        d2xdz2[ k ] = dxdz[ k ] * ( -zCoord[ k ] - dlogpdf * dxdz[ k ] )
+
+    # Second differences need the square root of the first difference spacing, taken 
+    # relative to the local scale of each variable ( the change of x_k per unit of z_k ); 
+    # otherwise round-off dominates the Hessian or the difference is not local
+    scaleX = np.abs( dxdz )
+
+    def lsfAtScaledX( Y ):
+        return g( xDesign + np.array( Y, dtype=float ) * scaleX )
+
+    hm = hessianMatrix( lsfAtScaledX, int( dim ), dx=np.sqrt( dx ) )
+    lsfHmAtX = np.array( [ [ hmij( [ 0.0 ] * dim ) for hmij in hmi ] for hmi in hm ], 
+                         dtype=float ) / np.outer( scaleX, scaleX )
     lsfHmAtU = np.dot( np.dot( JInv.T, lsfHmAtX ), JInv ) + \
         np.dot( np.dot( natafTrans.L.T, np.diag( lsfGradAtX * d2xdz2 ) ), natafTrans.L )
     HBH = np.dot( np.dot( H, lsfHmAtU / lsfGradNormAtU ), H.T )
